@@ -71,13 +71,15 @@ theorem merge_total {d : J} {ukvs : KV} (hwf : ukvs.wf = true)
   simp only [retainUpdate]
   exact ru_total ukvs _ hwf (Or.inr rfl) (known_of_check hc).1
 
-/-- `merge_comm`: two updates with disjoint leaf paths (keys known, leaves on leaves) merged in
-either order give the same tree — the merged result does not depend on the file order -/
+/-- `merge_comm`: two updates (keys known, leaves on leaves) that agree wherever both reach — real
+files of one level both carry `parameter_level` / `version`, with equal values — merged in either
+order give the same tree: the merged result does not depend on the file order.  Updates with
+disjoint leaf paths are the special case `agree_of_disjoint`. -/
 theorem merge_comm {u1 u2 : KV} {d r1 r12 r2 r21 : J}
     (hw1 : u1.wf = true) (hw2 : u2.wf = true) (hnd : NodupAt d)
     (hk1 : Known d (.obj u1)) (hk2 : Known d (.obj u2))
     (hl1 : LeafOnLeaf d (.obj u1)) (hl2 : LeafOnLeaf d (.obj u2))
-    (hdis : DisjointLeaves (.obj u1) (.obj u2))
+    (hdis : AgreeOnCommon (.obj u1) (.obj u2))
     (e1 : retainUpdate d (.obj u1) = .ok r1) (e12 : retainUpdate r1 (.obj u2) = .ok r12)
     (e2 : retainUpdate d (.obj u2) = .ok r2) (e21 : retainUpdate r2 (.obj u1) = .ok r21) :
     r12 = r21 := by
@@ -88,7 +90,7 @@ theorem merge_comm {u1 u2 : KV} {d r1 r12 r2 r21 : J}
 theorem merge_comm_checked {u1 u2 : KV} {d : J}
     (hwd : d.wf = true) (hw1 : u1.wf = true) (hw2 : u2.wf = true)
     (hc1 : checkTypes [] d (.obj u1) = .ok ()) (hc2 : checkTypes [] d (.obj u2) = .ok ())
-    (hdis : DisjointLeaves (.obj u1) (.obj u2)) :
+    (hdis : AgreeOnCommon (.obj u1) (.obj u2)) :
     ∃ r1 r2 r, retainUpdate d (.obj u1) = .ok r1 ∧ retainUpdate r1 (.obj u2) = .ok r ∧
       retainUpdate d (.obj u2) = .ok r2 ∧ retainUpdate r2 (.obj u1) = .ok r := by
   obtain ⟨hk1, hl1⟩ := known_of_check hc1
@@ -115,7 +117,31 @@ example : ∃ r1 r2 r,
     retainUpdate (.obj (.cons "a" (.int 1) (.cons "b" (.float 5 (-1)) .nil))) (.obj (.cons "b" (.int 2) .nil)) = .ok r2 ∧
     retainUpdate r2 (.obj (.cons "a" (.int 7) .nil)) = .ok r :=
   merge_comm_checked (by decide) (by decide) (by decide) rfl rfl
-    (disjoint_of_keys (by decide))
+    (agree_of_disjoint (disjoint_of_keys (by decide)))
+
+/-- the same with the decidable hypotheses the check evaluates on every generated pair of files
+(`hyp` op of `drv_tree`): well-formed, both accepted by `check_types`, `agreeB` -/
+theorem merge_comm_decidable {u1 u2 : KV} {d : J}
+    (hwd : d.wf = true) (hw1 : u1.wf = true) (hw2 : u2.wf = true)
+    (hc1 : checkTypes [] d (.obj u1) = .ok ()) (hc2 : checkTypes [] d (.obj u2) = .ok ())
+    (hag : agreeB u1 u2 = true) :
+    ∃ r1 r2 r, retainUpdate d (.obj u1) = .ok r1 ∧ retainUpdate r1 (.obj u2) = .ok r ∧
+      retainUpdate d (.obj u2) = .ok r2 ∧ retainUpdate r2 (.obj u1) = .ok r :=
+  merge_comm_checked hwd hw1 hw2 hc1 hc2 (agreeOnCommon_of_agreeB hag)
+
+/-- non-vacuity on files shaped like real ones: both carry `parameter_level` (and `version`) -/
+example : ∃ r1 r2 r,
+    retainUpdate (.obj (.cons "parameter_level" (.str "virtual_world") (.cons "version" (.str "4.0")
+        (.cons "a" (.int 1) (.cons "s" (.obj (.cons "x" (.float 5 (-1)) (.cons "y" (.int 2) .nil))) .nil)))))
+      (.obj (.cons "parameter_level" (.str "virtual_world") (.cons "s" (.obj (.cons "x" (.int 7) .nil)) .nil))) = .ok r1 ∧
+    retainUpdate r1 (.obj (.cons "version" (.str "4.0") (.cons "parameter_level" (.str "virtual_world")
+        (.cons "s" (.obj (.cons "y" (.int 9) .nil)) .nil)))) = .ok r ∧
+    retainUpdate (.obj (.cons "parameter_level" (.str "virtual_world") (.cons "version" (.str "4.0")
+        (.cons "a" (.int 1) (.cons "s" (.obj (.cons "x" (.float 5 (-1)) (.cons "y" (.int 2) .nil))) .nil)))))
+      (.obj (.cons "version" (.str "4.0") (.cons "parameter_level" (.str "virtual_world")
+        (.cons "s" (.obj (.cons "y" (.int 9) .nil)) .nil)))) = .ok r2 ∧
+    retainUpdate r2 (.obj (.cons "parameter_level" (.str "virtual_world") (.cons "s" (.obj (.cons "x" (.int 7) .nil)) .nil))) = .ok r :=
+  merge_comm_decidable (by decide) (by decide) (by decide) rfl rfl (by decide)
 
 /-! ### check: acceptance is exactly "every key known and every value typed" -/
 
@@ -146,6 +172,72 @@ theorem accepts_known_typed {om : List String} {d t : J} (h : checkTypes om d t 
       · exact hc
       · cases hc
     exact ct_list_mem tl x hl hm
+
+/-- `checkTypes_iff`: `check_types` accepts exactly the conforming files — the converse of
+`accepts_known_typed`: a file every key of which is known and every value of which is typed is
+accepted.  `conforms` is the specification as a plain conjunction; its one-level reading is
+`conforms_dict` / `conforms_list` below. -/
+theorem checkTypes_iff (om : List String) (d t : J) :
+    checkTypes om d t = .ok () ↔ conforms om d t = true :=
+  ct_iff_conforms om t d
+
+/-- a dictionary conforms iff it passes the node test and every key that is not an omit key is a
+key of the default with a conforming value -/
+theorem conforms_dict (om : List String) (d : J) (tk : KV) :
+    conforms om d (.obj tk) = true ↔
+      ∃ dk, d = .obj dk ∧ ∀ k tv, (k, tv) ∈ tk.toList → om.contains k = false →
+        ∃ dv, dk.lookup k = some dv ∧ conforms om dv tv = true := by
+  constructor
+  · intro h
+    simp only [conforms, Bool.and_eq_true] at h
+    obtain ⟨dk, hd⟩ := typeOk_obj h.1
+    subst hd
+    exact ⟨dk, rfl, (confKvs_iff om dk tk).mp h.2⟩
+  · rintro ⟨dk, rfl, h⟩
+    simp only [conforms, Bool.and_eq_true]
+    exact ⟨by simp [typeOk, J.tag, J.isStr], (confKvs_iff om dk tk).mpr h⟩
+
+/-- a list conforms iff the default is a list and, when the default list is non-empty, every
+element conforms to its first element (an empty default list leaves the elements unchecked) -/
+theorem conforms_list (om : List String) (d : J) (tl : JL) :
+    conforms om d (.list tl) = true ↔
+      ∃ dl, d = .list dl ∧ ∀ d0 ds, dl = .cons d0 ds → ∀ x, x ∈ tl.toList → conforms om d0 x = true := by
+  constructor
+  · intro h
+    simp only [conforms, Bool.and_eq_true] at h
+    cases d with
+    | list dl =>
+      refine ⟨dl, rfl, ?_⟩
+      intro d0 ds hdl x hx
+      subst hdl
+      exact (confList_iff om d0 tl).mp h.2 x hx
+    | _ => simp [typeOk, J.tag, J.isStr] at h
+  · rintro ⟨dl, rfl, h⟩
+    simp only [conforms, Bool.and_eq_true]
+    refine ⟨by simp [typeOk, J.tag, J.isStr], ?_⟩
+    cases dl with
+    | nil => rfl
+    | cons d0 ds => exact (confList_iff om d0 tl).mpr (h d0 ds rfl)
+
+/-- the node test in full: a string for a numeric placeholder must be that placeholder; otherwise
+equal types, an int for a float, an int for the int placeholder, an int or float for the float
+placeholder (a string for the string placeholder is the equal-types case) -/
+theorem typeOk_spec (d t : J) :
+    typeOk d t = true ↔
+      (((d = .str phInt ∨ d = .str phFloat) ∧ t.tag = 4) ∧ t = d) ∨
+      (¬ ((d = .str phInt ∨ d = .str phFloat) ∧ t.tag = 4) ∧
+        (d.tag = t.tag ∨ (d.tag = 3 ∧ t.tag = 2) ∨ (d = .str phInt ∧ t.tag = 2) ∨
+          (d = .str phFloat ∧ (t.tag = 2 ∨ t.tag = 3)))) := by
+  cases d with
+  | str a =>
+    by_cases h1 : a = phInt
+    · subst h1
+      cases t <;> simp [typeOk, J.tag, J.isStr, phInt, phFloat, eq_comm]
+    · by_cases h2 : a = phFloat
+      · subst h2
+        cases t <;> simp [typeOk, J.tag, J.isStr, phInt, phFloat, eq_comm]
+      · cases t <;> simp [typeOk, J.tag, J.isStr, h1, h2]
+  | _ => cases t <;> simp [typeOk, J.tag, J.isStr]
 
 /-- `rejects_unknown_key`: a key (not an omit key) the defaults lack at the same omit-free path
 makes `check_types` reject, at any depth -/
@@ -439,6 +531,32 @@ example : intake exDefs [exP, exM, exV] = .ok
      .nil))))))) := by
   rfl
 
+/-- the version gate is order dependent (finding F18c): after a file with a minor-mismatch version
+the gate is switched off, so a newer-version file is refused when it comes first and let through
+when it comes second -/
+theorem version_gate_order_counterexample :
+    (∃ fs, versionGate false
+        [.cons "version" (.str "4.1") .nil, .cons "version" (.str "5.0") .nil] = .ok fs) ∧
+    (match versionGate false
+        [.cons "version" (.str "5.0") .nil, .cons "version" (.str "4.1") .nil] with
+      | .error .exit => true
+      | _ => false) = true := by
+  constructor
+  · exact ⟨_, rfl⟩
+  · decide +kernel
+
+/-- a program named like a type placeholder is accepted and the placeholder stays in the returned
+parameters as a dictionary key (finding F18d): `no_placeholder_left` is about values only -/
+theorem placeholder_key_counterexample :
+    (match intake exDefs [.cons "parameter_level" (.str "programs")
+                            (.cons "program_name" (.str phStr) .nil)] with
+      | .ok (.obj sim) =>
+        (match sim.lookup "programs" with
+          | some (.obj ps) => ps.has phStr
+          | _ => false)
+      | _ => false) = true := by
+  decide +kernel
+
 /-- the reserved-name test itself -/
 theorem reserved_table :
     isReserved "none" = true ∧ isReserved "None" = true ∧ isReserved "NULL" = true ∧
@@ -467,5 +585,178 @@ theorem section_checked_and_merged {defs : KV} {defFile slot : String} {st st' :
       · rename_i r hr
         cases h
         exact ⟨d, r, hd, by cases ‹Unit›; exact hc, hr, rfl, rfl, rfl⟩
+
+
+/-! ### the intake end to end -/
+
+/-- wiring of the simulation-settings branch: the file is key- and type-checked against the
+simulation settings accumulated so far (without the installed `virtual_world` / `outputs`
+sections; only the top-level `programs` key is exempt) and merged into them -/
+theorem sim_settings_checked_and_merged {defs : KV} {st st' : St} {file : KV}
+    (hl : file.lookup "parameter_level" = some (.str "simulation_settings"))
+    (h : route defs st file = .ok st') :
+    checkTypes ["programs"] (.obj ((st.sim.erase "virtual_world").erase "outputs")) (.obj file) = .ok () ∧
+    retainUpdate (.obj st.sim) (.obj file) = .ok (.obj st'.sim) ∧
+    st'.programs = st.programs ∧ st'.pool = st.pool := by
+  rw [(route_dispatch defs st file).1 hl] at h
+  exact routeSim_inv h
+
+/-- wiring of the programs branch: the file is checked against the program defaults (only the
+top-level `methods` key exempt), merged onto them, and installed under its own `program_name` -/
+theorem program_checked_and_merged {defs : KV} {st st' : St} {file : KV}
+    (hl : file.lookup "parameter_level" = some (.str "programs"))
+    (h : route defs st file = .ok st') :
+    ∃ d p nm key,
+      loadDef defs (match file.lookup "default_parameters" with
+                    | some v => v
+                    | none => .str progDefFile) = .ok d ∧
+      checkTypes ["methods"] d (.obj file) = .ok () ∧ retainUpdate d (.obj file) = .ok (.obj p) ∧
+      p.lookup "program_name" = some nm ∧ keyOf nm = some key ∧
+      st'.programs = st.programs.setKey key (.obj p) ∧ st'.sim = st.sim ∧ st'.pool = st.pool := by
+  rw [(route_dispatch defs st file).2.2.1 hl] at h
+  exact routeProgram_inv h
+
+/-- every accepted file passed `check_types` against the defaults of its level (a method file is
+checked when a program installs it: `methods_installed`) -/
+theorem routed_file_checked {defs : KV} {st st' : St} {file : KV}
+    (h : route defs st file = .ok st') :
+    (file.lookup "parameter_level" = some (.str "simulation_settings") ∧
+        ∃ ref, checkTypes ["programs"] (.obj ref) (.obj file) = .ok ()) ∨
+    ((file.lookup "parameter_level" = some (.str "virtual_world") ∨
+      file.lookup "parameter_level" = some (.str "outputs")) ∧
+        ∃ d, checkTypes [] d (.obj file) = .ok ()) ∨
+    (file.lookup "parameter_level" = some (.str "programs") ∧
+        ∃ d, checkTypes ["methods"] d (.obj file) = .ok ()) ∨
+    (file.lookup "parameter_level" = some (.str "methods") ∧
+        ∃ key, st'.pool.lookup key = some (.obj file)) := by
+  obtain ⟨s, hl, hs⟩ := route_level h
+  rcases hs with rfl | rfl | rfl | rfl | rfl
+  · exact Or.inl ⟨hl, _, (sim_settings_checked_and_merged hl h).1⟩
+  · rw [(route_dispatch defs st file).2.1 hl] at h
+    obtain ⟨d, r, _, hc, _⟩ := section_checked_and_merged h
+    exact Or.inr (Or.inl ⟨Or.inl hl, d, hc⟩)
+  · obtain ⟨d, p, nm, key, _, hc, _⟩ := program_checked_and_merged hl h
+    exact Or.inr (Or.inr (Or.inl ⟨hl, d, hc⟩))
+  · rw [(route_dispatch defs st file).2.2.2.1 hl] at h
+    obtain ⟨nm, key, _, _, hp, _, _⟩ := routeMethod_inv h
+    exact Or.inr (Or.inr (Or.inr ⟨hl, key, by rw [hp, KV.lookup_setKey_same]⟩))
+  · rw [(route_dispatch defs st file).2.2.2.2 hl] at h
+    obtain ⟨d, r, _, hc, _⟩ := section_checked_and_merged h
+    exact Or.inr (Or.inl ⟨Or.inr hl, d, hc⟩)
+
+/-- `intake_ok_inv`: what an accepted intake went through — the version gate, the routing of every
+file (each one accepted by its branch, hence checked: `routed_file_checked`), the installation of
+every program (hence of every method: `methods_installed`), placeholder removal and name validation;
+and the returned tree is exactly the placeholder-free image of the parsed one -/
+theorem intake_ok_inv {defs : KV} {files : List KV} {r : J} (h : intake defs files = .ok r) :
+    ∃ sim0 fs st ps,
+      defs.lookup simDefFile = some (.obj sim0) ∧ versionGate false files = .ok fs ∧
+      routeAll defs { sim := sim0, programs := .nil, pool := .nil }
+        (if hasOutputsFile fs then fs
+         else fs ++ [KV.cons "parameter_level" (.str "outputs") .nil]) = .ok st ∧
+      (∀ f, f ∈ (if hasOutputsFile fs then fs
+                 else fs ++ [KV.cons "parameter_level" (.str "outputs") .nil]) →
+        ∃ s1 s2, route defs s1 f = .ok s2) ∧
+      installPrograms defs st.pool st.programs = .ok ps ∧
+      (∀ name prog, st.programs.lookup name = some prog →
+        ∃ pr, installProgram defs st.pool prog = .ok pr ∧ ps.lookup name = some pr) ∧
+      r = rpVal (.obj (st.sim.setKey "programs" (.obj ps))) ∧
+      validateNames (rpKvs (st.sim.setKey "programs" (.obj ps))) = .ok () := by
+  simp only [intake] at h
+  cases hs : defs.lookup simDefFile with
+  | none => simp [hs] at h
+  | some sv =>
+    cases sv with
+    | obj sim0 =>
+      simp only [hs] at h
+      cases hv : versionGate false files with
+      | error e => simp [hv] at h
+      | ok fs =>
+        simp only [hv] at h
+        cases hp : parse defs sim0 fs with
+        | error e => simp [hp] at h
+        | ok sim =>
+          simp only [hp, removePlaceholders] at h
+          cases hn : validateNames (rpKvs sim) with
+          | error e => simp [hn] at h
+          | ok u =>
+            simp only [hn] at h
+            cases h
+            simp only [parse] at hp
+            cases hr : routeAll defs { sim := sim0, programs := .nil, pool := .nil }
+                (if hasOutputsFile fs then fs
+                 else fs ++ [KV.cons "parameter_level" (.str "outputs") .nil]) with
+            | error e => simp [hr] at hp
+            | ok st =>
+              simp only [hr] at hp
+              cases hprog : st.programs with
+              | nil => simp [hprog] at hp
+              | cons k0 p0 t0 =>
+                simp only [hprog] at hp
+                cases hi : installPrograms defs st.pool (.cons k0 p0 t0) with
+                | error e => simp [hi] at hp
+                | ok ps =>
+                  simp only [hi] at hp
+                  cases hp
+                  refine ⟨sim0, fs, st, ps, rfl, rfl, hr, routeAll_each defs _ _ st hr, ?_, ?_, ?_, ?_⟩
+                  · rw [hprog]; exact hi
+                  · intro name prog hl
+                    rw [hprog] at hl
+                    exact installPrograms_lookup defs st.pool _ ps name prog hi hl
+                  · simp [rpVal]
+                  · cases u; exact hn
+    | _ => simp [hs] at h
+
+/-- `intake_frame`: at every key path the returned parameters hold the placeholder-free image of
+what the merged (parsed) parameters hold there — together with `merge_frame` for the merged
+sections this is the frame clause for what the caller receives -/
+theorem intake_frame (merged : J) (p : Path) :
+    get? p (rpVal merged) = (get? p merged).map rpVal :=
+  get?_rpVal p merged
+
+
+/-! ### file order at the level where files really meet (`route`) -/
+
+/-- `writes_swap`: two files that each write one slot (value independent of what came before —
+true of every virtual_world / outputs / programs / methods file by `route_uniform`) can be given in
+either order when they write different slots (different sections, different program names,
+different method names): both orders are accepted and the resulting states hold the same
+dictionaries up to key order -/
+theorem writes_swap {defs : KV} {f g : KV} {wf wg : Write}
+    (hf : ∀ st, route defs st f = .ok (applyW wf st))
+    (hg : ∀ st, route defs st g = .ok (applyW wg st))
+    (ht : wf.target ≠ wg.target) (st : St) :
+    ∃ s1 s12 s2 s21, route defs st f = .ok s1 ∧ route defs s1 g = .ok s12 ∧
+      route defs st g = .ok s2 ∧ route defs s2 f = .ok s21 ∧ St.equiv s12 s21 :=
+  ⟨_, _, _, _, hf st, hg _, hg st, hf _, applyW_comm wf wg st ht⟩
+
+/-- `files_of_different_levels_swap`: the positive order theorem under the check's assumption —
+two accepted files of different levels among virtual_world / outputs / programs / methods can be
+swapped anywhere in the list (with `writes_swap` also two program files with different names and two
+method files with different names).  Simulation-settings files accumulate and are covered by
+`merge_comm`; two files of one single-instance level are the recorded finding F18b. -/
+theorem files_of_different_levels_swap {defs : KV} {f g : KV} {sf sg : String} {st0 st1 a b : St}
+    (hlf : f.lookup "parameter_level" = some (.str sf))
+    (hlg : g.lookup "parameter_level" = some (.str sg))
+    (hsf : sf = "virtual_world" ∨ sf = "outputs" ∨ sf = "programs" ∨ sf = "methods")
+    (hsg : sg = "virtual_world" ∨ sg = "outputs" ∨ sg = "programs" ∨ sg = "methods")
+    (hne : sf ≠ sg) (hf : route defs st0 f = .ok a) (hg : route defs st1 g = .ok b) (st : St) :
+    ∃ s1 s12 s2 s21, route defs st f = .ok s1 ∧ route defs s1 g = .ok s12 ∧
+      route defs st g = .ok s2 ∧ route defs s2 f = .ok s21 ∧ St.equiv s12 s21 := by
+  rcases route_uniform defs f sf hlf hsf with ⟨e, he⟩ | ⟨wf, hwf, f1, f2⟩
+  · rw [he st0] at hf; cases hf
+  rcases route_uniform defs g sg hlg hsg with ⟨e, he⟩ | ⟨wg, hwg, g1, g2⟩
+  · rw [he st1] at hg; cases hg
+  apply writes_swap hwf hwg _ st
+  intro heq
+  have e1 : kindOf sf = kindOf sg := by rw [← f1, ← g1, heq]
+  have e2 : kindOf sf = "section" → sf = sg := by
+    intro hk
+    rw [← f2 hk, ← g2 (by rw [← e1]; exact hk), heq]
+  rcases hsf with rfl | rfl | rfl | rfl <;> rcases hsg with rfl | rfl | rfl | rfl <;>
+    first
+    | exact hne rfl
+    | exact absurd e1 (by decide)
+    | exact hne (e2 (by decide))
 
 end LdarModel.Tree
